@@ -144,6 +144,69 @@ def body_zero_fill(S, spec):
         exp = {k: ref.get(k, 0) + cy.get(k, 0) for k in set(ref) | set(cy)}
         same_coords(S, "add", r, exp)
         # (mixed real/complex blocks are legitimate for +: blocks present in one operand are kept as they are)
+    elif op == "mixed_then":
+        # a real array (concrete float64 blocks, also in the symbolic run) plus a complex one storing other sectors: the sum legitimately has
+        # blocks of both types.  Every later operation must keep the imaginary parts: with a real example block the zero blocks it creates are
+        # machine float64 arrays, and writing a complex term into one is a cast trap (replayed with complex numbers, where numpy discards silently).
+        y = build(S, spec["b"])
+        if S.mode == "num":
+            to_single(y, True)
+        cy = orc.coords(y)
+        exp = {k: ref.get(k, 0) + cy.get(k, 0) for k in set(ref) | set(cy)}
+
+        def compare(nm_, got, want):
+            """got/want: dicts of entries.  sym: obligations; num: one structural finding under the name the symbolic run uses"""
+            if S.mode == "sym":
+                for k in set(got) | set(want):
+                    close(S, f"{nm_}@{k}", got.get(k, 0), want.get(k, 0))
+            else:
+                bad = [k for k in set(got) | set(want)
+                       if abs(complex(got.get(k, 0)) - complex(want.get(k, 0))) > 2e-4 * max(1.0, abs(complex(want.get(k, 0))))]
+                if bad:
+                    S.structural.append((f"{nm_}:value-lost", f"entries differ at {bad[:3]}: got {[got.get(k, 0) for k in bad[:3]]} want {[want.get(k, 0) for k in bad[:3]]}"))
+
+        for order in ("real-first", "complex-first"):
+            r = (x + y) if order == "real-first" else (y + x)
+            compare(f"{order}:add", orc.coords(r), exp)
+            for then in spec["then"]:
+                nm_ = f"{order}:{then}"
+                try:
+                    if then in ("fuse-insert", "fuse-concat"):
+                        g = spec["groups"]
+                        z = r.fuse(*g, mode=then[5:]).unfuse_all()
+                        grouped = [a for gg in g for a in gg]
+                        position = min(grouped)
+                        perm = [a for a in range(position) if a not in grouped] + grouped + [a for a in range(position, r.ndim) if a not in grouped]
+                        compare(nm_, orc.coords(z), {tuple(k[p] for p in perm): v for k, v in exp.items()})
+                    elif then == "to_dense":
+                        D = r.to_dense()
+                        Dr, L = orc.dense_of(r, dtype=object if S.mode == "sym" else np.complex128)
+                        compare(nm_, {idx: D[idx] for idx in np.ndindex(*Dr.shape)}, {idx: Dr[idx] for idx in np.ndindex(*Dr.shape)})
+                    elif then == "reshape":
+                        compare(nm_, orc.coords(r.reshape((-1,)).reshape(r.shape)), exp)
+                    elif then == "fill_missing_blocks":
+                        z = r.copy()
+                        z.fill_missing_blocks()
+                        compare(nm_, orc.coords(z), exp)
+                    elif then == "transpose":
+                        perm = tuple(reversed(range(r.ndim)))
+                        compare(nm_, orc.coords(r.transpose(perm)), {tuple(k[p] for p in perm): v for k, v in exp.items()})
+                    elif then == "tensordot-fused":
+                        ax = (tuple(range(1, r.ndim)), tuple(range(1, r.ndim)))
+                        t1 = sr.tensordot(r, r.conj(), axes=ax, mode="blockwise", preserve_array=True)
+                        t2 = sr.tensordot(r, r.conj(), axes=ax, mode="fused", preserve_array=True)
+                        compare(nm_, orc.coords(t2), orc.coords(t1))
+                    elif then == "norm":
+                        n = r.norm()
+                        tot = 0
+                        for v in exp.values():
+                            tot = tot + v * (v.conjugate() if hasattr(v, "conjugate") else np.conj(v))
+                        n = zt.as_Z(n) if S.mode == "sym" else complex(n)
+                        compare(nm_, {"n2": n * n}, {"n2": tot})
+                except Violation as v:
+                    S.structural.append((v.name, v.detail))
+                except Exception as e:  # (library exceptions only: path-steering exceptions are BaseException)
+                    S.structural.append((f"{nm_}:value-lost", f"raised {type(e).__name__}: {e}"))
     elif op == "scalar":
         s = S.scalar("s", complex_=True)
         r = x * s
@@ -167,9 +230,17 @@ def body_zero_fill(S, spec):
 
 
 BODIES = {"body_zero_fill": body_zero_fill}
+try:
+    from props import c18 as _c18
+    BODIES.update({k: _c18.BODIES[k] for k in ("body_model", "body_elements") if k in _c18.BODIES})
+except Exception:  # pragma: no cover
+    pass
 
 
 def _run(case):
+    if case.get("body") in ("body_model", "body_elements", "body_array"):
+        from props import c18  # the local-operator builders with complex coefficients (bodies and symbolic zeros backend of C18)
+        return c18._run(case)
     return run_case(body_zero_fill, case["spec"], complex_=case.get("complex", True), validate=False, want_sample=case.get("sample", False),
                     seed=case.get("seed", 0), max_paths=16, wall_limit=60)
 
@@ -220,7 +291,32 @@ def build_family(tier, seed):
                 if other:
                     am.append(dict(a=dict(a, cx=()), b=dict(a, present=other, cx=other, name="b"), op="add_mixed"))
             groups[f"add-real-complex/{nm}"] = ([dict(body="body_zero_fill", spec=c, complex=False, seed=seed + i) for i, c in enumerate(am[::3])], False)
+            # ... and what later operations make of such a sum (real example block, complex data elsewhere)
+            gl2 = {nd: [g for g in fam.ordered_groupings(nd, max_groups=2) if any(len(x) >= 2 for x in g)] for nd in (2, 3, 4)}
+            mt = []
+            for k, c in enumerate(am):
+                nd = len(c["a"]["indices"])
+                a_ = dict(c["a"], present=c["a"]["present"][:1], machine=c["a"]["present"][:1], cx=())
+                mt.append(dict(a=a_, b=c["b"], op="mixed_then", groups=gl2[nd][k % len(gl2[nd])],
+                               then=("fuse-insert", "fuse-concat", "to_dense", "reshape", "fill_missing_blocks", "transpose", "tensordot-fused", "norm")))
+            mt, _ = fam.thin(mt, 150 if not thorough else 1500, seed + 9)
+            groups[f"mixed-sum-then/{nm}"] = ([dict(body="body_zero_fill", spec=c, complex=True, seed=seed + i) for i, c in enumerate(mt)], False)
+    # complex coefficients through the local fermionic operator builders: their accumulation buffer must be complex (a real buffer is
+    # modelled by an object array that traps complex writes; numeric replays use numpy complex64 scalars)
+    from props import c18
+    g18 = c18.build_family(tier, seed)
+    for k in ("models-complex-coefficients", "elements-complex-coefficients"):
+        groups[f"local-operators/{k}"] = g18[k]
     return groups
+
+
+def classify(v):
+    import re
+    # the three routes into _fuse_blocks_via_insert with a real example block in front of complex data (known finding); anything else
+    # in that family (complex-first, concat, to_dense, fill_missing_blocks, transpose, norm, the sum itself) is reported
+    if re.fullmatch(r"real-first:(fuse-insert|reshape|tensordot-fused):value-lost", str(v.get("name", ""))) and str(v.get("group", "")).startswith("mixed-sum-then"):
+        return {"defect": "fuse-insert-zero-block-type-from-first-block"}
+    return {}
 
 
 def run(tier, seed, only=None):
@@ -233,12 +329,14 @@ def run(tier, seed, only=None):
         "precision* (float32/complex64), where the wrong dtype is directly visible. (ii) the imaginary part is never discarded: with complex entries (and real "
         "arrays meeting complex vectors/scalars) every value identity (round trips, densification, products, conj, norm) is decided by z3, and any real cast of a "
         "complex entry is a cast trap. dtype names reported for symbolic blocks are the modelled machine dtype, so code keyed on the dtype name behaves as for numpy users. "
+        "(iii) sums of a real and a complex array with different stored sectors (blocks of both machine types: the real blocks are concrete float64 arrays also in the symbolic run, "
+        "so that the library sees a real example block) followed by fuse (both strategies), reshape, to_dense, fill_missing_blocks, transpose, fused-mode tensordot, norm: writing a complex term into a real zero block is a cast trap. "
         "NOT claimed: that numpy's type resolution keeps float32/complex64 un-promoted through every ufunc/LAPACK call (not applicable to this technique).")
     rep.rule = "case = (sparse array structure, zero-block-creating operation, arguments); non-trivial = produced obligations"
-    rep.functions = ["_fuse_core zeros_kwargs / _fuse_blocks_via_insert / _fuse_blocks_via_concat", "AbelianArray.to_dense filler", "fill_missing_blocks", "_tensordot_via_fused",
+    rep.functions = ["build_local_fermionic_dense / fermi_hubbard*_local_array (complex coefficients)", "_fuse_core zeros_kwargs / _fuse_blocks_via_insert / _fuse_blocks_via_concat", "AbelianArray.to_dense filler", "fill_missing_blocks", "_tensordot_via_fused",
                      "multiply_diagonal", "BlockBase.dtype / conj / norm", "reshape"]
     rep.bounds = {"rank": "2..4", "charges_per_index": "<=2", "block_sizes": "1..2", "replay dtype": "float32 / complex64"}
     rep.outside = ["dtype promotion inside numpy (float32 -> float64) for operations that create no zero blocks: not applicable", "linalg results (real parts for spectra)", "random() dtype casting"]
     groups = build_family(tier, seed)
     run_groups(rep, groups, _run, only)
-    return rep.finish()
+    return rep.finish(classify)
